@@ -720,7 +720,8 @@ def run(ctx):
     if impl_bin is None:
         # the harness uses every comparison/format impl of the crate: a removed impl or changed public
         # constructor is an API change, not a verdict about C14
-        raise RuntimeError("harness `cmp` does not build against %s:\n%s" % (ctx.repo, bout[-3000:]))
+        common.harness_build_failed(ctx, "cmp", bout, what="the comparison/format correspondence harness")
+        return
     drv_bin = common.lean_exe("drv_cmp")
     runner = Runner(ctx, impl_bin, drv_bin)
     cfg = runner.calibrate()
